@@ -22,7 +22,7 @@ ID = "C20"
 LEVEL = "exploration"
 RULE = (
     "Histories of 1-3 (thorough 1-4) calls over {read with AmplitudeChain / GooFitChain / GooFitPyChain, convert to C++, convert to "
-    "Python} x a pool of 7 small option files with different resonance content (two carrying the coherent-sum option, 0 and 1; one "
+    "Python} x a pool of 8 small option files (one of which cannot be read: unknown particle, with the coherent-sum option on) with different resonance content (two carrying the coherent-sum option, 0 and 1; one "
     "with another event type; two with the same parameter and amplitude names but different values and fix flags), drawn by Hypothesis; each history runs in a forked child of a process that imported the package but "
     "never read a file (warm: special-particle table appended and look-ups of the pool's names memoised; cold: nothing looked up, "
     "no memo), and every step's result (amplitude strings, couplings, tables, output lines as a multiset without the timestamp "
@@ -105,9 +105,8 @@ def run_forked(actions, memo):
                 for op, path in actions:
                     try:
                         out.append(RUN.run_action(op, path))
-                    except BaseException as e:  # noqa: BLE001
-                        out.append({"exception": f"{type(e).__name__}: {e}"})
-                        break
+                    except Exception as e:  # noqa: BLE001 -- a failing read does not end the history
+                        out.append({"exception": type(e).__name__, "message": str(e)[:200]})
                 payload = json.dumps(out)
             except BaseException as e:  # noqa: BLE001
                 payload = json.dumps({"error": repr(e)})
@@ -132,8 +131,12 @@ def compare_history(hist, d, ref, memo, label):
         if isinstance(want, dict) and "error" in want:
             raise Mismatch("C20:fresh-interpreter-fails", f"{op} {name}: {want['error'][-300:]}")
         want = want[0]
+        if "exception" in want:
+            if g.get("exception") != want["exception"]:
+                raise Mismatch("C20:history-dependence", f"{label}: step {i} ({op} {name}) after {hist[:i]}: a fresh interpreter raises {want['exception']}, here: {g.get('exception', 'no exception')}")
+            continue
         if "exception" in g:
-            raise Mismatch("C20:exception-after-history", f"{label}: step {i} ({op} {name}) after {hist[:i]} raised {g['exception']}")
+            raise Mismatch("C20:exception-after-history", f"{label}: step {i} ({op} {name}) after {hist[:i]} raised {g['exception']}: {g.get('message')}")
         cg, cw = canon(g), canon(want)
         if cg != cw:
             if "text" in cg:
@@ -190,7 +193,7 @@ def run_unit(unit, seed, rec, tier):
         action = st.tuples(st.sampled_from(P.OPS), st.sampled_from(P.NAMES))
         # histories built around a related pair of files (same names with other values; cartesian then polar;
         # shared resonances) are drawn as often as unconstrained ones
-        pairs = (("vv-rho", "vv-rho-postfit"), ("vv-rho-postfit", "vv-rho"), ("cart-1", "vv-rho"), ("cart-1", "cart-0-partial"),
+        pairs = (("broken-cart-1", "vv-rho"), ("broken-cart-1", "cart-0-partial"), ("vv-rho", "vv-rho-postfit"), ("vv-rho-postfit", "vv-rho"), ("cart-1", "vv-rho"), ("cart-1", "cart-0-partial"),
                  ("kmatrix-focus", "vv-omega"), ("a1-spline", "vv-rho"), ("cart-0-partial", "vv-omega"), ("vv-omega", "kmatrix-focus"))
         related = st.builds(lambda op1, op2, pr, filler: [(op1, pr[0])] + filler + [(op2 or op1, pr[1])],
                             st.sampled_from(P.OPS), st.one_of(st.none(), st.sampled_from(P.OPS)), st.sampled_from(pairs),
